@@ -20,6 +20,8 @@ pub enum Step {
     Gone,
     Bookmark,
     ListFail,
+    /// the pending LIST is answered in pages of one object; the first page arrives, the request for the next one fails
+    ListPart,
     /// thousands of metadata-only updates of object n in a row, ending in description o
     Churn(String, Value),
 }
@@ -36,6 +38,7 @@ impl Step {
             "gone" => Step::Gone,
             "bookmark" => Step::Bookmark,
             "listfail" => Step::ListFail,
+            "listpart" => Step::ListPart,
             "churn" => Step::Churn(n, v["o"].clone()),
             other => panic!("unknown step kind {other}"),
         }
@@ -61,6 +64,8 @@ struct State {
     lists_served: usize,
     list_fail_once: bool, // the history says: the outstanding LIST request is answered with a server error
     list_fails: usize,
+    list_part_once: bool, // the history says: the outstanding LIST gets its first page (one object), the next page request fails
+    fail_continue: bool,
     gone_next: bool,
     watch_gen: u64,
     watch_alive: bool,
@@ -118,7 +123,7 @@ impl Mock {
         let l = TcpListener::bind("127.0.0.1:0").await.expect("bind loopback");
         let port = l.local_addr().unwrap().port();
         let st = Arc::new(Mutex::new(State {
-            ns: ns.to_string(), rv: 97, objs: BTreeMap::new(), log: vec![], list_waiting: 0, list_open: false, lists_since_open: 0, lists_served: 0, list_fail_once: false, list_fails: 0,
+            ns: ns.to_string(), rv: 97, objs: BTreeMap::new(), log: vec![], list_waiting: 0, list_open: false, lists_since_open: 0, lists_served: 0, list_fail_once: false, list_fails: 0, list_part_once: false, fail_continue: false,
             gone_next: false, watch_gen: 0, watch_alive: false, watch_delivered: 0, cmd: None, cmds_done: 0, t0: Instant::now(), reqs: vec![],
         }));
         let st2 = st.clone();
@@ -233,6 +238,15 @@ impl Mock {
                     s.list_fails
                 };
                 self.wait("the LIST to be answered with an error", limit, |s| s.list_fails > before).await
+            }
+            Step::ListPart => {
+                self.await_list_request(limit).await?;
+                let before = {
+                    let mut s = self.st.lock().unwrap();
+                    s.list_part_once = true;
+                    s.list_fails
+                };
+                self.wait("the first page to be served and the next page request to be refused", limit, |s| s.list_fails > before).await
             }
             Step::Drop(how) => {
                 self.wait("an established watch", limit, |s| s.watch_alive && s.cmd.is_none()).await?;
@@ -425,9 +439,38 @@ async fn serve(mut s: TcpStream, st: Arc<Mutex<State>>) {
             g.list_waiting += 1;
         }
         let mut fail = false;
+        // a request for a FOLLOWING page (continue token) of a paged LIST
+        if query_param(&target, "continue").map(|c| !c.is_empty()).unwrap_or(false) {
+            let refuse = {
+                let mut g = st.lock().unwrap();
+                std::mem::take(&mut g.fail_continue)
+            };
+            let (status, body) = if refuse {
+                ("500 Internal Server Error", json!({"kind": "Status", "apiVersion": "v1", "metadata": {}, "status": "Failure", "message": "etcdserver: request timed out", "reason": "InternalError", "code": 500}).to_string())
+            } else {
+                // (pages after the first are only ever requested after a "listpart": anything else is answered with an expired token)
+                ("410 Gone", json!({"kind": "Status", "apiVersion": "v1", "metadata": {}, "status": "Failure", "message": "The provided continue parameter is too old", "reason": "Expired", "code": 410}).to_string())
+            };
+            let r = s.write_all(format!("HTTP/1.1 {status}\r\nContent-Type: application/json\r\nContent-Length: {}\r\n\r\n{}", body.len(), body).as_bytes()).await;
+            st.lock().unwrap().list_fails += 1;
+            if r.is_err() {
+                return;
+            }
+            continue;
+        }
         let body = loop {
             {
                 let mut g = st.lock().unwrap();
+                if g.list_part_once {
+                    // first page: the first object in name order, with a continue token; the request for the rest will be refused
+                    g.list_part_once = false;
+                    g.fail_continue = true;
+                    g.list_waiting -= 1;
+                    let items: Vec<Value> = g.objs.values().take(1).cloned().collect();
+                    let left = g.objs.len().saturating_sub(1);
+                    break json!({"apiVersion": "agones.dev/v1", "kind": "GameServerList",
+                                 "metadata": {"resourceVersion": g.rv.to_string(), "continue": "page-2", "remainingItemCount": left}, "items": items}).to_string();
+                }
                 if g.list_fail_once {
                     g.list_fail_once = false;
                     g.list_waiting -= 1;
